@@ -1,7 +1,143 @@
-// twin modes (C18, C19, C20) and the rr histogram mode (C15)
+// stats-rr mode (C15, oracle B): the spread of rr_cache's victim choice over many evictions.
+// For one capacity c and one RNG seed, N = 400*c evicting inserts are made (interleaved with erases+refills,
+// updates and lookups taken cyclically from the case's operation list).  For every eviction the victim's rank
+// by insertion age among the residents is recorded.  Required: exactly one prior resident disappears each
+// time; every rank 0..c-1 is chosen at least once and none every time; no entry survives 64*c consecutive
+// evictions.  For a uniform choice the probability of a false alarm is below c*exp(-400).
 #include "engine.hpp"
+#include "vt.hpp"
+
+#include <algorithm>
+#include <cmath>
+#include <sstream>
+
 namespace en
 {
-Result run_twin(const cs::Case&, const Options&) { return Result{}; }
-Result run_stats_rr(const cs::Case&, const Options&) { return Result{}; }
+Result run_stats_rr(const cs::Case& c, const Options& opt)
+{
+    Result      res;
+    bx::Config  cfg = c.cfg;
+    cfg.kind        = bx::K_RR;
+    if (cfg.cap < 2)
+        cfg.cap = 2;
+    if (cfg.cap > 8)
+        cfg.cap = 8;
+    const size_t cap = cfg.cap;
+    vt::reset(cfg.seed);
+    auto box = bx::make_box(cfg);
+    auto fail = [&](const std::string& tags, const std::string& pred, const std::string& msg, int step) {
+        res.verdict = tags.find(opt.property) != std::string::npos ? V_VIOLATION : V_FOREIGN;
+        res.pred    = pred;
+        res.tags    = tags;
+        res.msg     = msg;
+        res.step    = step;
+        return res;
+    };
+    std::vector<int>  resident; // insertion order, oldest first
+    std::vector<long> survived(vv::kMaxKeys, 0);
+    uint64_t          vseq = 1;
+    auto fresh = [&]() {
+        for (int k = 0; k < vv::kMaxKeys; ++k)
+            if (std::find(resident.begin(), resident.end(), k) == resident.end())
+                return k;
+        return -1;
+    };
+    while (resident.size() < cap)
+    {
+        int k = fresh();
+        box->insert(k, vseq++, bx::A_BOTH, 0);
+        resident.push_back(k);
+    }
+    const long        N = 400 * static_cast<long>(cap);
+    std::vector<long> hist(cap, 0);
+    size_t            opi = 0;
+    for (long i = 0; i < N; ++i)
+    {
+        if (!c.ops.empty())
+        {
+            const cs::Op& o = c.ops[opi++ % c.ops.size()];
+            const size_t  r = static_cast<size_t>(o.k) % resident.size();
+            uint64_t      v = 0;
+            switch (o.code)
+            {
+                case cs::O_ERA:
+                case cs::O_ERAR:
+                {
+                    int k = resident[r];
+                    if (!box->erase(k))
+                        return fail("C03", "stats_erase_resident", "erase of resident key failed", static_cast<int>(i));
+                    resident.erase(resident.begin() + static_cast<long>(r));
+                    survived[static_cast<size_t>(k)] = 0;
+                    int n = fresh();
+                    box->insert(n, vseq++, bx::A_BOTH, 0);
+                    resident.push_back(n);
+                    survived[static_cast<size_t>(n)] = 0;
+                    res.labels["stats_erase_refill"] += 1;
+                    break;
+                }
+                case cs::O_INS:
+                case cs::O_INSR:
+                    box->insert(resident[r], vseq++, bx::A_UPDATE, 0);
+                    res.labels["stats_updates"] += 1;
+                    break;
+                case cs::O_FIND:
+                case cs::O_FINDR:
+                case cs::O_FINDRF:
+                    box->find(resident[r], false, v);
+                    res.labels["stats_lookups"] += 1;
+                    break;
+                default: break;
+            }
+        }
+        // all residents must still be there (nothing but the evicting insert removes entries)
+        int n = fresh();
+        if (!box->insert(n, vseq++, bx::A_BOTH, 0))
+            return fail("C09", "stats_insert", "insert_or_update failed", static_cast<int>(i));
+        std::vector<size_t> missing;
+        for (size_t r = 0; r < resident.size(); ++r)
+        {
+            uint64_t v = 0;
+            if (!box->find(resident[r], false, v))
+                missing.push_back(r);
+        }
+        uint64_t v = 0;
+        if (!box->find(n, false, v))
+            return fail("C15,C03", "rr_evicted_the_inserted_key", "the key being inserted is not resident after the insert", static_cast<int>(i));
+        if (missing.size() != 1 || box->size() != cap)
+            return fail("C15,C03", "rr_one_prior_resident", "an evicting insert removed " + std::to_string(missing.size()) + " prior residents, size()=" +
+                                                                std::to_string(box->size()), static_cast<int>(i));
+        hist[missing[0]] += 1;
+        int vk = resident[missing[0]];
+        resident.erase(resident.begin() + static_cast<long>(missing[0]));
+        survived[static_cast<size_t>(vk)] = 0;
+        for (int k : resident)
+            if (++survived[static_cast<size_t>(k)] > 64 * static_cast<long>(cap))
+                return fail("C15", "rr_resident_immune", "key " + std::to_string(k) + " survived more than " + std::to_string(64 * cap) + " consecutive evictions",
+                            static_cast<int>(i));
+        resident.push_back(n);
+        survived[static_cast<size_t>(n)] = 0;
+    }
+    std::ostringstream hs;
+    double             chi = 0, ex = static_cast<double>(N) / static_cast<double>(cap);
+    for (size_t r = 0; r < cap; ++r)
+    {
+        hs << hist[r] << " ";
+        chi += (static_cast<double>(hist[r]) - ex) * (static_cast<double>(hist[r]) - ex) / ex;
+    }
+    for (size_t r = 0; r < cap; ++r)
+    {
+        if (hist[r] == 0)
+            return fail("C15", "rr_rank_never_chosen", "over " + std::to_string(N) + " evictions at capacity " + std::to_string(cap) + " the resident of insertion rank " +
+                                                           std::to_string(r) + " was never the victim; histogram " + hs.str(), static_cast<int>(N));
+        if (hist[r] == N)
+            return fail("C15", "rr_rank_always_chosen", "rank " + std::to_string(r) + " always chosen; histogram " + hs.str(), static_cast<int>(N));
+    }
+    res.labels["stats_evictions"] += N;
+    res.labels["stats_chi2_x100_sum"] += static_cast<long>(chi * 100);
+    res.labels["stats_runs"] += 1;
+    if (chi > 3.0 * static_cast<double>(cap))
+        res.labels["stats_chi2_above_3c"] += 1;
+    res.nontrivial = res.labels["stats_erase_refill"] >= 1;
+    return res;
+}
 } // namespace en
